@@ -55,8 +55,14 @@ def run(ctx):
         return
     rng = ctx.rng
     runner = SimRunner(ctx, exe)
-    nprog = ctx.n(200, 1500)
-    nsched = ctx.n(60, 400)
+    if getattr(ctx, "replay_path", None):
+        def kinds_of(obj, s):
+            b = runner.one(case_line(obj["program"], 1, 1000, ""))
+            return [k for k, _ in classify(s, b.observable() if b.ok else None)]
+        simlib.replay(ctx, runner, kinds_of)
+        return
+    nprog = ctx.n(160, 1500)
+    nsched = ctx.n(50, 400)
     progs, seen = [], set()
     # corpus first: lines `(case ...)`; their programs join the generated ones with a pinned schedule
     corpus = []
@@ -95,7 +101,7 @@ def run(ctx):
     for i in small:                      # smallest scenario of each template first
         if all_progs[i]["name"] not in names:
             names.add(all_progs[i]["name"]); picked.append(i)
-    for i in picked[:ctx.n(3, 7)]:
+    for i in picked[:ctx.n(2, 7)]:
         for q in ([1] if ctx.tier == "quick" else [1, 3]):
             n0 = len(lines)
             for sched in simlib.bfs_schedules(2, depth):
